@@ -555,6 +555,11 @@ def unwrap(v, t):
     raise TypeError("cannot encode %s as %s" % (type(v).__name__, t))
 
 
+def future_type(rt):
+    """concurrent.futures.Future as a value: the outcome of the submitted call (see externals._tpe_submit)"""
+    return TRec("Future_" + _safe(rt.name), {"raised": TBool, "value": rt, "exc_type": TStr, "exc_msg": TStr})
+
+
 # ---------------------------------------------------------------- type parsing
 
 class TypeEnv:
@@ -596,4 +601,6 @@ class TypeEnv:
                 return TTuple([self._p(a) for a in args])
             if head == "Un":
                 return TUn(args[0].id)
+            if head == "Future":
+                return future_type(self._p(args[0]))
         raise KeyError("cannot parse type %s" % ast.dump(n))
